@@ -283,9 +283,27 @@ def m_split_once(I, state, frame, bi, t, args, span):
     return [(opt(adt("tuple", {0: (a, b)})), state)]
 
 
-@model("core::str::<impl str>::ends_with", "core::str::<impl str>::starts_with", "core::str::<impl str>::is_empty",
-       "std::string::String::is_empty")
+@model("core::str::<impl str>::is_empty", "std::string::String::is_empty")
 def m_str_pred(I, state, frame, bi, t, args, span):
+    return [(BOOL_TOP, state)]
+
+
+@model("core::str::<impl str>::ends_with", "core::str::<impl str>::starts_with")
+def m_str_affix(I, state, frame, bi, t, args, span):
+    """s.ends_with(q) == true implies that s contains every literal part of q's format template"""
+    s = str_of(I, state, args[0])
+    q = str_of(I, state, args[1])
+    sr = shape_root(s)
+    lits = None
+    if q is not None and len(q[1]) == 1:
+        p = list(q[1])[0]
+        if p[0] == "fmt":
+            lits = [x for x in p[1] if x]
+        elif p[0] == "const":
+            lits = [p[1]]
+    if sr is not None and lits:
+        links = tuple(((sr, ()), "shapefact", (lit, True), None) for lit in lits)
+        return [(("fin", BOOL, BOOL_TOP[2], links), state)]
     return [(BOOL_TOP, state)]
 
 
@@ -1209,10 +1227,16 @@ def m_edge_weight(I, state, frame, bi, t, args, span):
     # the edge certainly exists when one key was obtained as a neighbour of the other
     certain = False
     if a[0] == "key" and b[0] == "key":
-        for r in a[2]:
+        def unvia(roles):
+            for r in roles:
+                if isinstance(r, tuple) and r[0] == "via":
+                    yield r[1]
+                else:
+                    yield r
+        for r in unvia(a[2]):
             if isinstance(r, tuple) and r[0] == "nbr" and r[1] == b[1] and r[2] == "Incoming" and b[1] is not None:
                 certain = True
-        for r in b[2]:
+        for r in unvia(b[2]):
             if isinstance(r, tuple) and r[0] == "nbr" and r[1] == a[1] and r[2] == "Outgoing" and a[1] is not None:
                 certain = True
         if "edge_b" in role_tags(b) and "edge_a" in role_tags(a):
